@@ -5,8 +5,13 @@
 (*   HasIn[i], InPlace[i], Stream[i]  BOOLEAN                                      *)
 EXTENDS Integers, Sequences, TLC, Json, CLICatalog
 
-VARIABLES cmd, state, force
-vars == <<cmd, state, force>>
+VARIABLES cmd, state, force, conf
+vars == <<cmd, state, force, conf>>
+
+(* configuration directory: disabled (-c disable) or a directory whose config.yml has every switch that has nothing to do with the
+   overwrite protection turned away from its default (checkFileNameExt off, optimization off, classic xref, ...). The decision never
+   depends on it. *)
+Confs == {"disabled", "tweaked"}
 
 FileStates(i) == {"absent", "present"} \cup (IF HasIn[i] THEN {"sameasinput"} ELSE {}) \cup (IF InPlace[i] THEN {"inplace"} ELSE {})
 DirStates == {"empty", "nonempty", "nonemptyglob"}   \* output directories must exist; "glob": the directory name contains [ ]
@@ -18,7 +23,7 @@ Expect(st, f) == IF Refuse(st, f) THEN "refuse"
                  ELSE IF st = "sameasinput" THEN "proceed-or-clean-failure"   \* forced aliasing may still be rejected, but cleanly
                  ELSE "proceed"
 
-Init == cmd \in 1..Len(Kinds) /\ state \in States(cmd) /\ force \in BOOLEAN
+Init == cmd \in 1..Len(Kinds) /\ state \in States(cmd) /\ force \in BOOLEAN /\ conf \in Confs
 Next == UNCHANGED vars
 Spec == Init /\ [][Next]_vars
 
@@ -26,7 +31,7 @@ Spec == Init /\ [][Next]_vars
 NeverRefuseNew == state \in {"absent", "inplace", "empty"} => Expect(state, force) = "proceed"
 ForceProceeds  == force => Expect(state, force) # "refuse"
 
-EmitCase == PrintT(<<"CASE", ToJson([cmd |-> cmd, state |-> state, force |-> force, expect |-> Expect(state, force)])>>)
+EmitCase == PrintT(<<"CASE", ToJson([cmd |-> cmd, state |-> state, force |-> force, conf |-> conf, expect |-> Expect(state, force)])>>)
 
 (* ---- C41: stream routing ---- *)
 Routes == {"file-file", "stdin-file", "file-stdout", "stdin-stdout"}
